@@ -168,6 +168,26 @@ func build(r *mon.Run, i int, ids map[string]*gen.Identity) *scenario {
 		}
 		sc.signers = append(sc.signers, signerSpec{id: id, hosts: hosts, date: base.Add(time.Duration(s) * time.Minute), duration: mon.Pick(g, []time.Duration{time.Hour, 24 * time.Hour, 604800 * time.Second, time.Second}), rs: mon.Pick(g, []int{1, 16, 17, 4096, 16384})})
 	}
+	// in a quarter of the scenarios one resource of the first signer's origin arrives late: it is left out of the first
+	// signing run and signed at the end by the SAME identity again (the same certificate vouching for a second subset)
+	var lateEx *bundle.Exchange
+	if lg := r.Rand("late", i); lg.Chance(1, 4) {
+		first := sc.signers[0]
+		if fs, err := signature.NewSigner(ver, first.id.Chain, first.id.Key, &url.URL{Scheme: "https", Host: first.hosts[0], Path: "/validity"}, first.date, first.duration); err == nil {
+			var mine []*bundle.Exchange
+			for _, e := range b.Exchanges {
+				if fs.CanSignForURL(e.Request.URL) {
+					mine = append(mine, e)
+				}
+			}
+			if len(mine) > 0 {
+				lateEx = mine[lg.Intn(len(mine))]
+				again := first
+				again.date = base.Add(time.Duration(nsig) * time.Minute)
+				sc.signers = append(sc.signers, again)
+			}
+		}
+	}
 	for s, sp := range sc.signers {
 		vu, _ := url.Parse("https://" + sp.hosts[0] + "/validity")
 		signer, err := signature.NewSigner(ver, sp.id.Chain, sp.id.Key, vu, sp.date, sp.duration)
@@ -178,6 +198,9 @@ func build(r *mon.Run, i int, ids map[string]*gen.Identity) *scenario {
 		for _, e := range b.Exchanges {
 			if !signer.CanSignForURL(e.Request.URL) {
 				continue
+			}
+			if lateEx != nil && (e == lateEx) != (s == len(sc.signers)-1) {
+				continue // the late resource is signed by the last run only, and that run signs nothing else
 			}
 			integ, err := e.AddPayloadIntegrity(ver, sp.rs)
 			if err != nil {
